@@ -85,6 +85,12 @@ fn main() {
             print!("{}", String::from_utf8_lossy(&p.source));
             0
         }
+        Some("big") if args.len() >= 3 => {
+            let p = progen::big(args[2].parse().unwrap_or(0));
+            println!("// args: {:?}", p.args);
+            print!("{}", String::from_utf8_lossy(&p.source));
+            0
+        }
         Some("soup") if args.len() >= 3 => {
             let p = corpus::soup(args[2].parse().unwrap_or(0));
             println!("// args: {:?}", p.args);
